@@ -42,6 +42,33 @@ type c17Case struct {
 	Guess int   `json:"guess,omitempty"`
 	// reused scale value: what it served before the fields were re-assigned
 	Prev *c17Prev `json:"prev,omitempty"`
+	// Clamp: 0 the Clamp field stays false, 1 it is set by assignment, 2 by
+	// SetClamp(true), on the value before its first call (ticks do not
+	// depend on it)
+	Clamp int `json:"clamp,omitempty"`
+	// Alt: other TickOptions, asked of the same scale value after the calls
+	// with the case's own options and after Nice in place with them
+	Alt *c17Opts `json:"alt,omitempty"`
+
+	// not serialised: a derived case (the fields a value has after a partial
+	// assignment or after Nice in place) is judged with orig as the case to
+	// record and replay, and ctx says in the messages where it comes from
+	orig *c17Case
+	ctx  string
+}
+
+type c17Opts struct {
+	OMax     int `json:"omax"`
+	MinLevel int `json:"min_level"`
+	MaxLevel int `json:"max_level"`
+}
+
+// rec is the case to record with a violation: the one Replay re-executes.
+func (c c17Case) rec() c17Case {
+	if c.orig != nil {
+		return *c.orig
+	}
+	return c
 }
 
 type c17Prev struct {
@@ -52,6 +79,11 @@ type c17Prev struct {
 	MinLevel int    `json:"min_level"`
 	MaxLevel int    `json:"max_level"`
 	Hist     string `json:"hist"` // "calls": Ticks, CountTicks, TicksAtLevel; "nice": those, then Nice on the value itself
+	// Assign: which exported fields are then assigned from the case: "" all of
+	// Min, Max, Base; "base", "min", "max" that one only, the others stay as
+	// the value has them (after Nice: the niced ends) and the case is judged
+	// with the reference of the fields as they are
+	Assign string `json:"assign,omitempty"`
 }
 
 func (p *c17Prev) asCase(kind string) c17Case {
@@ -92,8 +124,16 @@ func (c c17Case) String() string {
 		if c.Prev.Hist == "nice" {
 			what += " and Nice"
 		}
-		hist = fmt.Sprintf(" [fields assigned on a scale value that served %v before: %s]", c.Prev.asCase(c.Kind), what)
+		which := "fields"
+		if c.Prev.Assign != "" {
+			which = "only " + c.Prev.Assign
+		}
+		hist = fmt.Sprintf(" [%s assigned on a scale value that served %v before: %s]", which, c.Prev.asCase(c.Kind), what)
 	}
+	if c.Clamp != 0 {
+		hist += []string{"", " [Clamp=true]", " [SetClamp(true)]"}[c.Clamp%3]
+	}
+	hist += c.ctx
 	switch c.Kind {
 	case "fl":
 		return fmt.Sprintf("FindLevel{Max:%d,MinLevel:%d,MaxLevel:%d} guess=%d count=vals%v@breaks%v", c.OMax, c.MinLevel, c.MaxLevel, c.Guess, c.Vals, c.Brk)
@@ -434,6 +474,20 @@ func (R *c17LinRef) at(l int) *c17LinLevel {
 	return L
 }
 
+// windowTooFine: the coarsest level of a level window holds more than 1e15
+// ticks, so that on the finer levels of the window the tick count leaves the
+// int range. The generators keep every window within 30 levels of the level
+// that fits (at most ~1e13 ticks); a derived case (one field assigned on a
+// value Nice'd to a much wider domain, other options on such a value) can lie
+// beyond, and is not judged.
+func (R *c17LinRef) windowTooFine(minLevel, maxLevel int) bool {
+	if (minLevel == 0 && maxLevel == 0) || minLevel > maxLevel {
+		return false
+	}
+	Sf, _ := ref.LinSpacing(R.base, maxLevel).Float64()
+	return !(R.w/Sf <= 1e15)
+}
+
 // natural returns a level at which the domain certainly holds more than max
 // ticks (every lower level holds at least as many).
 func (R *c17LinRef) natural(max int) int {
@@ -572,7 +626,7 @@ func c17LinLaws(w *mon.W, c c17Case, R *c17LinRef, major, minor []float64) bool 
 	good := true
 	bad := func(kind, msg string) {
 		good = false
-		w.Violate(kind, fmt.Sprintf("%v: %s; major=%s minor=%s", c, msg, c17Fmt(major), c17Fmt(minor)), c)
+		w.Violate(kind, fmt.Sprintf("%v: %s; major=%s minor=%s", c, msg, c17Fmt(major), c17Fmt(minor)), c.rec())
 	}
 	if len(major) > c.OMax {
 		bad("ticks-too-many", fmt.Sprintf("%d major ticks, Max is %d", len(major), c.OMax))
@@ -638,13 +692,24 @@ func c17RatIsMultiple(x float64, S *big.Rat) bool {
 // value, so pointer-receiver state would stick), optionally Nice'd in place,
 // then Min, Max and Base are assigned and the case is judged on the same value.
 func c17JudgeLin(w *mon.W, c c17Case) {
+	clamp := func(s *scale.Linear) {
+		switch c.Clamp {
+		case 1:
+			s.Clamp = true
+		case 2:
+			s.SetClamp(true)
+		}
+	}
 	if c.Prev == nil {
 		s := scale.Linear{Min: float64(c.Min), Max: float64(c.Max), Base: c.Base}
+		clamp(&s)
 		c17JudgeLinOn(w, c, &s)
 		return
 	}
 	a := c.Prev.asCase("lin")
+	a.Clamp = c.Clamp
 	s := scale.Linear{Min: float64(a.Min), Max: float64(a.Max), Base: a.Base}
+	clamp(&s)
 	c17JudgeLinOn(w, a, &s)
 	if c.Prev.Hist == "nice" {
 		// judged on a copy inside the judge of a; here it leaves its state
@@ -653,8 +718,28 @@ func c17JudgeLin(w *mon.W, c c17Case) {
 	} else {
 		w.Hit("lin-reused-scale-after-calls")
 	}
-	s.Min, s.Max, s.Base = float64(c.Min), float64(c.Max), c.Base
-	c17JudgeLinOn(w, c, &s)
+	switch c.Prev.Assign {
+	case "base":
+		s.Base = c.Base
+	case "min":
+		s.Min = float64(c.Min)
+	case "max":
+		s.Max = float64(c.Max)
+	default:
+		s.Min, s.Max, s.Base = float64(c.Min), float64(c.Max), c.Base
+		c17JudgeLinOn(w, c, &s)
+		return
+	}
+	// one field assigned: the case is the fields as the value has them now
+	eff := c
+	eff.Min, eff.Max, eff.Base = mon.F(s.Min), mon.F(s.Max), s.Base
+	eff.orig = &c
+	if lo, hi := math.Min(s.Min, s.Max), math.Max(s.Min, s.Max); !c17InLinDomain(lo, hi) {
+		w.Note("lin-one-field-assigned-outside-domain")
+		return
+	}
+	w.Hit("lin-reused-scale-only-" + c.Prev.Assign + "-assigned")
+	c17JudgeLinOn(w, eff, &s)
 }
 
 func c17JudgeLinOn(w *mon.W, c c17Case, sv *scale.Linear) {
@@ -667,6 +752,10 @@ func c17JudgeLinOn(w *mon.W, c c17Case, sv *scale.Linear) {
 	R := c17NewLinRef(lo, hi, c.Base)
 	limited := !(c.MinLevel == 0 && c.MaxLevel == 0)
 	R.mw = w
+	if R.windowTooFine(c.MinLevel, c.MaxLevel) {
+		w.Note("lin-skipped-level-window-beyond-1e15-ticks")
+		return
+	}
 	lLo, lHi, hasLo, hasHi := R.search(c.OMax, c.MinLevel, c.MaxLevel)
 	if R.incomplete {
 		w.Note("lin-skipped-unindexable")
@@ -679,6 +768,7 @@ func c17JudgeLinOn(w *mon.W, c c17Case, sv *scale.Linear) {
 	w.HitIf(c.OMax <= 2 && !straddle, "lin-max<=2")
 	w.HitIf(mn > mx, "lin-reversed-domain")
 	w.HitIf(lo == -hi, "lin-centre-0")
+	w.HitIf(c.Clamp != 0, "lin-clamp-set")
 	w.Note(fmt.Sprintf("lin-base-%d", c.Base))
 	if limited {
 		uLo, _, uHas, _ := R.search(c.OMax, 0, 0)
@@ -722,9 +812,12 @@ func c17JudgeLinOn(w *mon.W, c c17Case, sv *scale.Linear) {
 	if amb {
 		w.Ambiguous()
 	}
-	h := mon.NewHasher().S("lin").F(mn).F(mx).I(c.Base).I(c.OMax).I(c.MinLevel).I(c.MaxLevel)
+	h := mon.NewHasher().S("lin").F(mn).F(mx).I(c.Base).I(c.OMax).I(c.MinLevel).I(c.MaxLevel).I(c.Clamp)
 	if p := c.Prev; p != nil {
-		h = h.S(p.Hist).F(float64(p.Min)).F(float64(p.Max)).I(p.Base).I(p.OMax).I(p.MinLevel).I(p.MaxLevel)
+		h = h.S(p.Hist).S(p.Assign).F(float64(p.Min)).F(float64(p.Max)).I(p.Base).I(p.OMax).I(p.MinLevel).I(p.MaxLevel)
+	}
+	if a := c.Alt; a != nil {
+		h = h.S("alt").I(a.OMax).I(a.MinLevel).I(a.MaxLevel)
 	}
 	w.Distinct(h.Sum())
 
@@ -732,7 +825,7 @@ func c17JudgeLinOn(w *mon.W, c c17Case, sv *scale.Linear) {
 	var major, minor []float64
 	w.Eval("Linear.Ticks")
 	if p, v := mon.Call(func() { major, minor = sv.Ticks(o) }); p {
-		w.Violate("ticks-panic", fmt.Sprintf("%v: Ticks panicked: %v", c, v), c)
+		w.Violate("ticks-panic", fmt.Sprintf("%v: Ticks panicked: %v", c, v), c.rec())
 	} else if c17LinLaws(w, c, R, major, minor) {
 		c17LinModel(w, c, R, major, minor, lLo, lHi, hasLo, hasHi)
 	}
@@ -745,10 +838,62 @@ func c17JudgeLinOn(w *mon.W, c c17Case, sv *scale.Linear) {
 	if !hasLo {
 		centre = R.natural(c.OMax) + 6
 	}
-	c17LinLevels(w, c, R, centre, sv)
+	c17LinLevels(w, c, R, centre, sv, false)
 
 	// ---- Nice
 	c17LinNice(w, c, R, sv)
+
+	// ---- the other TickOptions on the value that has answered all of that
+	c17LinAlt(w, c, sv, "calls")
+}
+
+// c17LinAlt asks a scale value that has answered calls with the case's own
+// TickOptions (after == "calls") or has been Nice'd in place with them
+// (after == "nice") for Ticks with the case's OTHER options c.Alt, and for
+// CountTicks/TicksAtLevel around the level those select, and judges the
+// answers with a fresh reference for the fields the value has now.
+func c17LinAlt(w *mon.W, c c17Case, sv *scale.Linear, after string) {
+	if c.Alt == nil {
+		return
+	}
+	lo, hi := math.Min(sv.Min, sv.Max), math.Max(sv.Min, sv.Max)
+	if !(hi > lo) || !c17InLinDomain(lo, hi) {
+		w.Note("lin-other-options-skipped-outside-domain")
+		return
+	}
+	rc := c.rec()
+	c2 := c17Case{Kind: "lin", Min: mon.F(sv.Min), Max: mon.F(sv.Max), Base: sv.Base, OMax: c.Alt.OMax, MinLevel: c.Alt.MinLevel, MaxLevel: c.Alt.MaxLevel, orig: &rc}
+	if after == "nice" {
+		c2.ctx = fmt.Sprintf(" [the value was Nice'd in place, it is what Nice made of %v]", c)
+	} else {
+		c2.ctx = fmt.Sprintf(" [the value answered Ticks, CountTicks and TicksAtLevel before, for %v]", c)
+	}
+	R := c17NewLinRef(lo, hi, sv.Base)
+	R.mw = w
+	if R.windowTooFine(c2.MinLevel, c2.MaxLevel) {
+		w.Note("lin-skipped-level-window-beyond-1e15-ticks")
+		return
+	}
+	lLo, lHi, hasLo, hasHi := R.search(c2.OMax, c2.MinLevel, c2.MaxLevel)
+	l1, _, has1, _ := R.search(c.OMax, c.MinLevel, c.MaxLevel)
+	if R.incomplete {
+		w.Note("lin-skipped-unindexable")
+		return
+	}
+	w.Hit("lin-other-options-after-" + after)
+	// the level the case's own options select on these fields is not the
+	// one the other options select
+	w.HitIf(has1 != hasLo || (hasLo && l1 != lLo), "lin-other-options-after-"+after+"-select-another-level")
+	var major, minor []float64
+	w.Eval("Linear.Ticks(other options)")
+	if p, v := mon.Call(func() { major, minor = sv.Ticks(c2.opts()) }); p {
+		w.Violate("ticks-panic", fmt.Sprintf("%v: Ticks panicked: %v", c2, v), c2.rec())
+	} else if c17LinLaws(w, c2, R, major, minor) {
+		c17LinModel(w, c2, R, major, minor, lLo, lHi, hasLo, hasHi)
+	}
+	if hasLo {
+		c17LinLevels(w, c2, R, lLo, sv, true)
+	}
 }
 
 // c17LinModel: the major ticks must be the lattice of the lowest feasible
@@ -757,7 +902,7 @@ func c17LinModel(w *mon.W, c c17Case, R *c17LinRef, major, minor []float64, lLo,
 	lists := fmt.Sprintf("major=%s minor=%s", c17Fmt(major), c17Fmt(minor))
 	if !hasLo {
 		if len(major) != 0 {
-			w.Violate("ticks-despite-unsatisfiable-limits", fmt.Sprintf("%v: no level of the window has <= Max ticks, but %s", c, lists), c)
+			w.Violate("ticks-despite-unsatisfiable-limits", fmt.Sprintf("%v: no level of the window has <= Max ticks, but %s", c, lists), c.rec())
 		}
 		return
 	}
@@ -780,14 +925,14 @@ func c17LinModel(w *mon.W, c c17Case, R *c17LinRef, major, minor []float64, lLo,
 	if why := R.match(major, lLo); why != "" {
 		for l := lLo + 1; l <= lLo+6; l++ {
 			if R.match(major, l) == "" && len(major) > 0 {
-				w.Violate("ticks-not-finest-level", fmt.Sprintf("%v: major ticks are those of level %d, but level %d already fits: %s; %s", c, l, lLo, R.expect(lLo), lists), c)
+				w.Violate("ticks-not-finest-level", fmt.Sprintf("%v: major ticks are those of level %d, but level %d already fits: %s; %s", c, l, lLo, R.expect(lLo), lists), c.rec())
 				return
 			}
 		}
-		w.Violate("ticks-major-wrong", fmt.Sprintf("%v: %s; expected %s; %s", c, why, R.expect(lLo), lists), c)
+		w.Violate("ticks-major-wrong", fmt.Sprintf("%v: %s; expected %s; %s", c, why, R.expect(lLo), lists), c.rec())
 		return
 	}
-	w.Violate("ticks-minor-wrong", fmt.Sprintf("%v: minor ticks: %s; expected %s; %s", c, R.match(minor, lLo-1), R.expect(lLo-1), lists), c)
+	w.Violate("ticks-minor-wrong", fmt.Sprintf("%v: minor ticks: %s; expected %s; %s", c, R.match(minor, lLo-1), R.expect(lLo-1), lists), c.rec())
 }
 
 // c17FarCount bounds the tick lists requested at the far finer levels.
@@ -850,7 +995,7 @@ func (R *c17LinRef) matchLong(got []float64, l int) string {
 // c17LinLevels judges CountTicks and TicksAtLevel on the levels around centre
 // and on a few far ones: two finer levels with long tick lists (up to
 // c17FarCount and about 6000 ticks) and three much coarser ones.
-func c17LinLevels(w *mon.W, c c17Case, R *c17LinRef, centre int, sv *scale.Linear) {
+func c17LinLevels(w *mon.W, c c17Case, R *c17LinRef, centre int, sv *scale.Linear, light bool) {
 	// the value under judgement with its ends in ascending order (the
 	// levels of a reversed domain are not defined)
 	s := *sv
@@ -858,6 +1003,9 @@ func c17LinLevels(w *mon.W, c c17Case, R *c17LinRef, centre int, sv *scale.Linea
 	var levels []int
 	fine := map[int]bool{}
 	for _, n := range []int64{c17FarCount, 6000} {
+		if light {
+			break
+		}
 		if l, ok := R.lowestWithin(n); ok && l < centre-3 && !fine[l] {
 			fine[l] = true
 			levels = append(levels, l)
@@ -868,6 +1016,10 @@ func c17LinLevels(w *mon.W, c c17Case, R *c17LinRef, centre int, sv *scale.Linea
 	}
 	far := len(levels)
 	levels = append(levels, centre+7, centre+19, centre+48)
+	if light {
+		// the level itself and the one below (the major and minor ticks)
+		levels, far = []int{centre - 1, centre}, 2
+	}
 	prev, prevL, prevAmb, havePrev := 0, 0, false, false
 	for k, l := range levels {
 		L := R.at(l)
@@ -880,15 +1032,15 @@ func c17LinLevels(w *mon.W, c c17Case, R *c17LinRef, centre int, sv *scale.Linea
 		var cnt int
 		w.Eval("Linear.CountTicks")
 		if p, v := mon.Call(func() { cnt = s.CountTicks(l) }); p {
-			w.Violate("countticks-panic", fmt.Sprintf("%v: CountTicks(%d) panicked: %v", c, l, v), c)
+			w.Violate("countticks-panic", fmt.Sprintf("%v: CountTicks(%d) panicked: %v", c, l, v), c.rec())
 			havePrev = false
 			continue
 		}
 		if int64(cnt) < L.mand() || int64(cnt) > L.allow() {
-			w.Violate("countticks-wrong", fmt.Sprintf("%v: CountTicks(%d)=%d; %s", c, l, cnt, R.expect(l)), c)
+			w.Violate("countticks-wrong", fmt.Sprintf("%v: CountTicks(%d)=%d; %s", c, l, cnt, R.expect(l)), c.rec())
 		}
 		if havePrev && cnt > prev && !prevAmb && !L.amb() {
-			w.Violate("countticks-increasing", fmt.Sprintf("%v: CountTicks(%d)=%d > CountTicks(%d)=%d", c, l, cnt, prevL, prev), c)
+			w.Violate("countticks-increasing", fmt.Sprintf("%v: CountTicks(%d)=%d > CountTicks(%d)=%d", c, l, cnt, prevL, prev), c.rec())
 		}
 		prev, prevL, prevAmb, havePrev = cnt, l, L.amb(), true
 		if L.allow() > c17FarCount {
@@ -897,14 +1049,14 @@ func c17LinLevels(w *mon.W, c c17Case, R *c17LinRef, centre int, sv *scale.Linea
 		var ts []float64
 		w.Eval("Linear.TicksAtLevel")
 		if p, v := mon.Call(func() { ts = s.TicksAtLevel(l).([]float64) }); p {
-			w.Violate("ticksatlevel-panic", fmt.Sprintf("%v: TicksAtLevel(%d) panicked: %v", c, l, v), c)
+			w.Violate("ticksatlevel-panic", fmt.Sprintf("%v: TicksAtLevel(%d) panicked: %v", c, l, v), c.rec())
 			continue
 		}
 		if len(ts) != cnt {
-			w.Violate("count-ne-len", fmt.Sprintf("%v: CountTicks(%d)=%d but len(TicksAtLevel(%d))=%d", c, l, cnt, l, len(ts)), c)
+			w.Violate("count-ne-len", fmt.Sprintf("%v: CountTicks(%d)=%d but len(TicksAtLevel(%d))=%d", c, l, cnt, l, len(ts)), c.rec())
 		}
 		if why := R.matchLong(ts, l); why != "" {
-			w.Violate("ticksatlevel-wrong", fmt.Sprintf("%v: TicksAtLevel(%d)=%s: %s; expected %s", c, l, c17Fmt(ts), why, R.expect(l)), c)
+			w.Violate("ticksatlevel-wrong", fmt.Sprintf("%v: TicksAtLevel(%d)=%s: %s; expected %s", c, l, c17Fmt(ts), why, R.expect(l)), c.rec())
 		}
 	}
 }
@@ -915,20 +1067,23 @@ func c17LinNice(w *mon.W, c c17Case, R *c17LinRef, sv *scale.Linear) {
 	n1 := *sv
 	w.Eval("Linear.Nice")
 	if p, v := mon.Call(func() { n1.Nice(o) }); p {
-		w.Violate("nice-panic", fmt.Sprintf("%v: Nice panicked: %v", c, v), c)
+		w.Violate("nice-panic", fmt.Sprintf("%v: Nice panicked: %v", c, v), c.rec())
 		return
 	}
 	a1, b1 := math.Min(n1.Min, n1.Max), math.Max(n1.Min, n1.Max)
 	after := fmt.Sprintf("[%v,%v]", n1.Min, n1.Max)
 	if math.IsNaN(n1.Min) || math.IsNaN(n1.Max) || math.IsInf(n1.Min, 0) || math.IsInf(n1.Max, 0) {
-		w.Violate("nice-non-finite", fmt.Sprintf("%v: Nice made the domain %s", c, after), c)
+		w.Violate("nice-non-finite", fmt.Sprintf("%v: Nice made the domain %s", c, after), c.rec())
 		return
 	}
 	if !(a1 <= R.lo+R.m2) || !(b1 >= R.hi-R.m2) {
 		msg := fmt.Sprintf("%v: Nice shrank the domain to %s (lower end moved in by %.3g widths, upper by %.3g)", c, after, (a1-R.lo)/R.w, (R.hi-b1)/R.w)
-		w.Violate("nice-shrinks", msg, c)
+		w.Violate("nice-shrinks", msg, c.rec())
 		return
 	}
+	// the other TickOptions on (a copy of) the value Nice'd in place
+	n3 := n1
+	c17LinAlt(w, c, &n3, "nice")
 	if c.OMax < 3 {
 		return
 	}
@@ -954,13 +1109,13 @@ func c17LinNice(w *mon.W, c c17Case, R *c17LinRef, sv *scale.Linear) {
 	n2 := n1
 	w.Eval("Linear.Nice")
 	if p, v := mon.Call(func() { n2.Nice(o) }); p {
-		w.Violate("nice-panic", fmt.Sprintf("%v: second Nice on %s panicked: %v", c, after, v), c)
+		w.Violate("nice-panic", fmt.Sprintf("%v: second Nice on %s panicked: %v", c, after, v), c.rec())
 		return
 	}
 	w1 := b1 - a1
 	tol := 1e-9*w1 + 8*c17Ulp(math.Max(math.Abs(a1), math.Abs(b1)))
 	if !(math.Abs(n2.Min-n1.Min) <= tol) || !(math.Abs(n2.Max-n1.Max) <= tol) {
-		w.Violate("nice-not-idempotent", fmt.Sprintf("%v: Nice gave %s, Nice again [%v,%v]", c, after, n2.Min, n2.Max), c)
+		w.Violate("nice-not-idempotent", fmt.Sprintf("%v: Nice gave %s, Nice again [%v,%v]", c, after, n2.Min, n2.Max), c.rec())
 	}
 	if !feasible {
 		return
@@ -968,17 +1123,17 @@ func c17LinNice(w *mon.W, c c17Case, R *c17LinRef, sv *scale.Linear) {
 	var major []float64
 	w.Eval("Linear.Ticks(after Nice)")
 	if p, v := mon.Call(func() { major, _ = n1.Ticks(o) }); p {
-		w.Violate("ticks-panic", fmt.Sprintf("%v: Ticks on the niced domain %s panicked: %v", c, after, v), c)
+		w.Violate("ticks-panic", fmt.Sprintf("%v: Ticks on the niced domain %s panicked: %v", c, after, v), c.rec())
 		return
 	}
 	if len(major) < 2 || !(math.Abs(major[0]-a1) <= tol) || !(math.Abs(major[len(major)-1]-b1) <= tol) {
-		w.Violate("nice-ends-not-ticks", fmt.Sprintf("%v: Nice gave %s but the major ticks there are %s", c, after, c17Fmt(major)), c)
+		w.Violate("nice-ends-not-ticks", fmt.Sprintf("%v: Nice gave %s but the major ticks there are %s", c, after, c17Fmt(major)), c.rec())
 		return
 	}
 	S := (major[len(major)-1] - major[0]) / float64(len(major)-1)
 	w.Err("linear Nice extension vs one major spacing", math.Max(R.lo-a1, b1-R.hi), S*(1+1e-9)+R.m2)
 	if R.lo-a1 > S*(1+1e-9)+R.m2 || b1-R.hi > S*(1+1e-9)+R.m2 {
-		w.Violate("nice-adds-more-than-one-spacing", fmt.Sprintf("%v: Nice gave %s with major spacing %v: extended by %.6g and %.6g spacings", c, after, S, (R.lo-a1)/S, (b1-R.hi)/S), c)
+		w.Violate("nice-adds-more-than-one-spacing", fmt.Sprintf("%v: Nice gave %s with major spacing %v: extended by %.6g and %.6g spacings", c, after, S, (R.lo-a1)/S, (b1-R.hi)/S), c.rec())
 	}
 }
 
@@ -1243,7 +1398,7 @@ func c17LogLaws(w *mon.W, c c17Case, R *c17LogRef, major, minor []float64) bool 
 	good := true
 	bad := func(kind, msg string) {
 		good = false
-		w.Violate(kind, fmt.Sprintf("%v: %s; major=%s minor=%s", c, msg, c17Fmt(major), c17Fmt(minor)), c)
+		w.Violate(kind, fmt.Sprintf("%v: %s; major=%s minor=%s", c, msg, c17Fmt(major), c17Fmt(minor)), c.rec())
 	}
 	if len(major) > c.OMax {
 		bad("ticks-too-many", fmt.Sprintf("%d major ticks, Max is %d", len(major), c.OMax))
@@ -1314,14 +1469,21 @@ func c17JudgeLog(w *mon.W, c c17Case) {
 	first := c
 	if c.Prev != nil {
 		first = c.Prev.asCase("log")
+		first.Clamp = c.Clamp
 	}
 	lg, err := scale.NewLog(float64(first.Min), float64(first.Max), first.Base)
 	if err != nil {
 		mn, mx := float64(first.Min), float64(first.Max)
 		if first.Base >= 2 && !math.IsNaN(mn) && !math.IsNaN(mx) && !(math.Min(mn, mx) <= 0 && math.Max(mn, mx) >= 0) {
-			w.Violate("newlog-error", fmt.Sprintf("%v: NewLog rejected an in-domain range: %v", first, err), first)
+			w.Violate("newlog-error", fmt.Sprintf("%v: NewLog rejected an in-domain range: %v", first, err), c)
 		}
 		return
+	}
+	switch c.Clamp {
+	case 1:
+		lg.Clamp = true
+	case 2:
+		lg.SetClamp(true)
 	}
 	c17JudgeLogOn(w, first, &lg)
 	if c.Prev == nil {
@@ -1334,11 +1496,31 @@ func c17JudgeLog(w *mon.W, c c17Case) {
 		w.Hit("log-reused-scale-after-calls")
 	}
 	mn, mx := float64(c.Min), float64(c.Max)
-	if mn > mx {
-		mn, mx = mx, mn // as NewLog orders them
+	switch c.Prev.Assign {
+	case "base":
+		lg.Base = c.Base
+	case "min":
+		lg.Min = mn
+	case "max":
+		lg.Max = mx
+	default:
+		if mn > mx {
+			mn, mx = mx, mn // as NewLog orders them
+		}
+		lg.Min, lg.Max, lg.Base = mn, mx, c.Base
+		c17JudgeLogOn(w, c, &lg)
+		return
 	}
-	lg.Min, lg.Max, lg.Base = mn, mx, c.Base
-	c17JudgeLogOn(w, c, &lg)
+	// one field assigned: the case is the fields as the value has them now
+	eff := c
+	eff.Min, eff.Max, eff.Base = mon.F(lg.Min), mon.F(lg.Max), lg.Base
+	eff.orig = &c
+	if !(lg.Min < lg.Max) || !c17InLogDomain(math.Min(math.Abs(lg.Min), math.Abs(lg.Max)), math.Max(math.Abs(lg.Min), math.Abs(lg.Max))) || (lg.Min < 0) != (lg.Max < 0) {
+		w.Note("log-one-field-assigned-outside-domain")
+		return
+	}
+	w.Hit("log-reused-scale-only-" + c.Prev.Assign + "-assigned")
+	c17JudgeLogOn(w, eff, &lg)
 }
 
 func c17JudgeLogOn(w *mon.W, c c17Case, lg *scale.Log) {
@@ -1367,6 +1549,7 @@ func c17JudgeLogOn(w *mon.W, c c17Case, lg *scale.Log) {
 	w.HitIf(c.OMax <= 2 && straddle, "log-max<=2-straddling-1")
 	w.HitIf(c.OMax <= 2 && !straddle, "log-max<=2")
 	w.HitIf(neg, "log-negative-domain")
+	w.HitIf(c.Clamp != 0, "log-clamp-set")
 	w.HitIf(!R.slackDom, "log-rounding-dominated")
 	w.HitIf(R.W > 100, "log-span>100-decades-of-base")
 	w.HitIf(R.W < 1, "log-span<1-power")
@@ -1394,6 +1577,7 @@ func c17JudgeLogOn(w *mon.W, c c17Case, lg *scale.Log) {
 			mf, ml, af, al := R.minorRange()
 			amb = amb || c17Span(mf, ml) != c17Span(af, al)
 			w.Hit("log-minor-level--1")
+			w.HitIf(c.Clamp != 0, "log-clamp-set-minor-level--1")
 		}
 		w.HitIf(lLo >= 1, "log-level>=1")
 		w.HitIf(lLo >= 3, "log-level>=3")
@@ -1428,9 +1612,12 @@ func c17JudgeLogOn(w *mon.W, c c17Case, lg *scale.Log) {
 	if amb {
 		w.Ambiguous()
 	}
-	h := mon.NewHasher().S("log").F(mn).F(mx).I(c.Base).I(c.OMax).I(c.MinLevel).I(c.MaxLevel)
+	h := mon.NewHasher().S("log").F(mn).F(mx).I(c.Base).I(c.OMax).I(c.MinLevel).I(c.MaxLevel).I(c.Clamp)
 	if p := c.Prev; p != nil {
-		h = h.S(p.Hist).F(float64(p.Min)).F(float64(p.Max)).I(p.Base).I(p.OMax).I(p.MinLevel).I(p.MaxLevel)
+		h = h.S(p.Hist).S(p.Assign).F(float64(p.Min)).F(float64(p.Max)).I(p.Base).I(p.OMax).I(p.MinLevel).I(p.MaxLevel)
+	}
+	if a := c.Alt; a != nil {
+		h = h.S("alt").I(a.OMax).I(a.MinLevel).I(a.MaxLevel)
 	}
 	w.Distinct(h.Sum())
 
@@ -1438,7 +1625,7 @@ func c17JudgeLogOn(w *mon.W, c c17Case, lg *scale.Log) {
 	var major, minor []float64
 	w.Eval("Log.Ticks")
 	if p, v := mon.Call(func() { major, minor = lg.Ticks(o) }); p {
-		w.Violate("ticks-panic", fmt.Sprintf("%v: Ticks panicked: %v", c, v), c)
+		w.Violate("ticks-panic", fmt.Sprintf("%v: Ticks panicked: %v", c, v), c.rec())
 	} else if c17LogLaws(w, c, R, major, minor) {
 		c17LogModel(w, c, R, major, minor, lLo, lHi, hasLo, hasHi)
 	}
@@ -1448,9 +1635,66 @@ func c17JudgeLogOn(w *mon.W, c c17Case, lg *scale.Log) {
 
 	// ---- CountTicks / TicksAtLevel, every level from 0 to the last one
 	// whose effective base is finite (far coarser than the chosen one)
-	top := R.lcap
+	c17LogLevels(w, c, R, lg, 0, R.lcap, lLo, hasLo)
+
+	c17LogNice(w, c, R, *lg)
+
+	// ---- the other TickOptions on the value that has answered all of that
+	c17LogAlt(w, c, lg, "calls")
+}
+
+// c17LogAlt: as c17LinAlt.
+func c17LogAlt(w *mon.W, c c17Case, lg *scale.Log, after string) {
+	if c.Alt == nil {
+		return
+	}
+	mn, mx := lg.Min, lg.Max
+	neg := mn < 0
+	lo, hi := mn, mx
+	if neg {
+		lo, hi = -mx, -mn
+	}
+	if !(mn < mx) || (mn <= 0 && mx >= 0) || !c17InLogDomain(lo, hi) || lg.Base < 2 {
+		w.Note("log-other-options-skipped-outside-domain")
+		return
+	}
+	rc := c.rec()
+	c2 := c17Case{Kind: "log", Min: mon.F(mn), Max: mon.F(mx), Base: lg.Base, OMax: c.Alt.OMax, MinLevel: c.Alt.MinLevel, MaxLevel: c.Alt.MaxLevel, orig: &rc}
+	if after == "nice" {
+		c2.ctx = fmt.Sprintf(" [the value was Nice'd in place, it is what Nice made of %v]", c)
+	} else {
+		c2.ctx = fmt.Sprintf(" [the value answered Ticks, CountTicks and TicksAtLevel before, for %v]", c)
+	}
+	R := c17NewLogRef(lo, hi, neg, lg.Base)
+	R.w = w
+	lLo, lHi, hasLo, hasHi := R.search(c2.OMax, c2.MinLevel, c2.MaxLevel)
+	l1, _, has1, _ := R.search(c.OMax, c.MinLevel, c.MaxLevel)
+	if R.incomplete {
+		w.Note("log-skipped-level-beyond-float-range")
+		return
+	}
+	w.Hit("log-other-options-after-" + after)
+	w.HitIf(has1 != hasLo || (hasLo && l1 != lLo), "log-other-options-after-"+after+"-select-another-level")
+	var major, minor []float64
+	w.Eval("Log.Ticks(other options)")
+	if p, v := mon.Call(func() { major, minor = lg.Ticks(c2.opts()) }); p {
+		w.Violate("ticks-panic", fmt.Sprintf("%v: Ticks panicked: %v", c2, v), c2.rec())
+	} else if c17LogLaws(w, c2, R, major, minor) {
+		c17LogModel(w, c2, R, major, minor, lLo, lHi, hasLo, hasHi)
+	}
+	if hasLo {
+		c17LogLevels(w, c2, R, lg, lLo, lLo+1, lLo, hasLo)
+	}
+}
+
+// c17LogLevels judges CountTicks and TicksAtLevel on the levels from..to.
+func c17LogLevels(w *mon.W, c c17Case, R *c17LogRef, lg *scale.Log, from, to, lLo int, hasLo bool) {
+	neg := R.neg
+	if to > R.lcap {
+		to = R.lcap
+	}
 	prev, prevAmb, havePrev := 0, false, false
-	for l := 0; l <= top; l++ {
+	for l := from; l <= to; l++ {
 		L := R.at(l)
 		if !L.ok {
 			break
@@ -1459,49 +1703,47 @@ func c17JudgeLogOn(w *mon.W, c c17Case, lg *scale.Log) {
 		var cnt int
 		w.Eval("Log.CountTicks")
 		if p, v := mon.Call(func() { cnt = lg.CountTicks(l) }); p {
-			w.Violate("countticks-panic", fmt.Sprintf("%v: CountTicks(%d) panicked: %v", c, l, v), c)
+			w.Violate("countticks-panic", fmt.Sprintf("%v: CountTicks(%d) panicked: %v", c, l, v), c.rec())
 			havePrev = false
 			continue
 		}
 		if int64(cnt) < L.mand() || int64(cnt) > L.allow() {
-			w.Violate("countticks-wrong", fmt.Sprintf("%v: CountTicks(%d)=%d; %s", c, l, cnt, R.expect(l)), c)
+			w.Violate("countticks-wrong", fmt.Sprintf("%v: CountTicks(%d)=%d; %s", c, l, cnt, R.expect(l)), c.rec())
 		}
 		if havePrev && cnt > prev && !prevAmb && !L.amb() {
-			w.Violate("countticks-increasing", fmt.Sprintf("%v: CountTicks(%d)=%d > CountTicks(%d)=%d", c, l, cnt, l-1, prev), c)
+			w.Violate("countticks-increasing", fmt.Sprintf("%v: CountTicks(%d)=%d > CountTicks(%d)=%d", c, l, cnt, l-1, prev), c.rec())
 		}
 		prev, prevAmb, havePrev = cnt, L.amb(), true
 		var ts []float64
 		w.Eval("Log.TicksAtLevel")
 		if p, v := mon.Call(func() { ts = lg.TicksAtLevel(l).([]float64) }); p {
-			w.Violate("ticksatlevel-panic", fmt.Sprintf("%v: TicksAtLevel(%d) panicked: %v", c, l, v), c)
+			w.Violate("ticksatlevel-panic", fmt.Sprintf("%v: TicksAtLevel(%d) panicked: %v", c, l, v), c.rec())
 			continue
 		}
 		if len(ts) != cnt {
-			w.Violate("count-ne-len", fmt.Sprintf("%v: CountTicks(%d)=%d but len(TicksAtLevel(%d))=%d", c, l, cnt, l, len(ts)), c)
+			w.Violate("count-ne-len", fmt.Sprintf("%v: CountTicks(%d)=%d but len(TicksAtLevel(%d))=%d", c, l, cnt, l, len(ts)), c.rec())
 		}
 		okList := true
 		for i, t := range ts {
 			if math.IsNaN(t) || t == 0 || math.IsInf(t, 0) || (t < 0) != neg || (i > 0 && !(ts[i-1] < t)) {
 				okList = false
-				w.Violate("ticksatlevel-wrong", fmt.Sprintf("%v: TicksAtLevel(%d)=%s is not an ascending list of finite values of the domain's sign", c, l, c17Fmt(ts)), c)
+				w.Violate("ticksatlevel-wrong", fmt.Sprintf("%v: TicksAtLevel(%d)=%s is not an ascending list of finite values of the domain's sign", c, l, c17Fmt(ts)), c.rec())
 				break
 			}
 		}
 		if okList {
 			if why := R.match(c17Mags(ts, neg), l); why != "" {
-				w.Violate("ticksatlevel-wrong", fmt.Sprintf("%v: TicksAtLevel(%d)=%s: %s; expected %s", c, l, c17Fmt(ts), why, R.expect(l)), c)
+				w.Violate("ticksatlevel-wrong", fmt.Sprintf("%v: TicksAtLevel(%d)=%s: %s; expected %s", c, l, c17Fmt(ts), why, R.expect(l)), c.rec())
 			}
 		}
 	}
-
-	c17LogNice(w, c, R, *lg)
 }
 
 func c17LogModel(w *mon.W, c c17Case, R *c17LogRef, major, minor []float64, lLo, lHi int, hasLo, hasHi bool) {
 	lists := fmt.Sprintf("major=%s minor=%s", c17Fmt(major), c17Fmt(minor))
 	if !hasLo {
 		if len(major) != 0 {
-			w.Violate("ticks-despite-unsatisfiable-limits", fmt.Sprintf("%v: no level of the window has <= Max ticks, but %s", c, lists), c)
+			w.Violate("ticks-despite-unsatisfiable-limits", fmt.Sprintf("%v: no level of the window has <= Max ticks, but %s", c, lists), c.rec())
 		}
 		return
 	}
@@ -1527,14 +1769,14 @@ func c17LogModel(w *mon.W, c c17Case, R *c17LogRef, major, minor []float64, lLo,
 	if why := R.match(mj, lLo); why != "" {
 		for l := lLo + 1; l <= lLo+6 && l <= R.lcap; l++ {
 			if len(mj) > 0 && R.match(mj, l) == "" {
-				w.Violate("ticks-not-finest-level", fmt.Sprintf("%v: major ticks are those of level %d, but level %d already fits: %s; %s", c, l, lLo, R.expect(lLo), lists), c)
+				w.Violate("ticks-not-finest-level", fmt.Sprintf("%v: major ticks are those of level %d, but level %d already fits: %s; %s", c, l, lLo, R.expect(lLo), lists), c.rec())
 				return
 			}
 		}
-		w.Violate("ticks-major-wrong", fmt.Sprintf("%v: %s; expected %s; %s", c, why, R.expect(lLo), lists), c)
+		w.Violate("ticks-major-wrong", fmt.Sprintf("%v: %s; expected %s; %s", c, why, R.expect(lLo), lists), c.rec())
 		return
 	}
-	w.Violate("ticks-minor-wrong", fmt.Sprintf("%v: minor ticks: %s; expected %s; %s", c, R.match(mn, lLo-1), R.expect(lLo-1), lists), c)
+	w.Violate("ticks-minor-wrong", fmt.Sprintf("%v: minor ticks: %s; expected %s; %s", c, R.match(mn, lLo-1), R.expect(lLo-1), lists), c.rec())
 }
 
 func c17LogNice(w *mon.W, c c17Case, R *c17LogRef, lg scale.Log) {
@@ -1543,13 +1785,13 @@ func c17LogNice(w *mon.W, c c17Case, R *c17LogRef, lg scale.Log) {
 	n1 := lg
 	w.Eval("Log.Nice")
 	if p, v := mon.Call(func() { n1.Nice(o) }); p {
-		w.Violate("nice-panic", fmt.Sprintf("%v: Nice panicked: %v", c, v), c)
+		w.Violate("nice-panic", fmt.Sprintf("%v: Nice panicked: %v", c, v), c.rec())
 		return
 	}
 	after := fmt.Sprintf("[%v,%v]", n1.Min, n1.Max)
 	a, b := math.Min(n1.Min, n1.Max), math.Max(n1.Min, n1.Max)
 	if math.IsNaN(a) || math.IsNaN(b) || math.IsInf(a, 0) || math.IsInf(b, 0) || (a <= 0 && b >= 0) {
-		w.Violate("nice-non-finite", fmt.Sprintf("%v: Nice made the domain %s (not a finite range excluding 0)", c, after), c)
+		w.Violate("nice-non-finite", fmt.Sprintf("%v: Nice made the domain %s (not a finite range excluding 0)", c, after), c.rec())
 		return
 	}
 	a1, b1 := a, b
@@ -1557,9 +1799,12 @@ func c17LogNice(w *mon.W, c c17Case, R *c17LogRef, lg scale.Log) {
 		a1, b1 = -b, -a
 	}
 	if (b < 0) != R.neg || !(a1 <= R.lo*(1+R.rho)) || !(b1 >= R.hi*(1-R.rho)) {
-		w.Violate("nice-shrinks", fmt.Sprintf("%v: Nice shrank the domain to %s", c, after), c)
+		w.Violate("nice-shrinks", fmt.Sprintf("%v: Nice shrank the domain to %s", c, after), c.rec())
 		return
 	}
+	// the other TickOptions on (a copy of) the value Nice'd in place
+	n3 := n1
+	c17LogAlt(w, c, &n3, "nice")
 	if c.OMax < 3 {
 		return
 	}
@@ -1583,14 +1828,14 @@ func c17LogNice(w *mon.W, c c17Case, R *c17LogRef, lg scale.Log) {
 	n2 := n1
 	w.Eval("Log.Nice")
 	if p, v := mon.Call(func() { n2.Nice(o) }); p {
-		w.Violate("nice-panic", fmt.Sprintf("%v: second Nice on %s panicked: %v", c, after, v), c)
+		w.Violate("nice-panic", fmt.Sprintf("%v: second Nice on %s panicked: %v", c, after, v), c.rec())
 		return
 	}
 	u1a, u1b := R.pos(a1), R.pos(b1)
 	tolR := 1e-9*R.lnB*math.Max(1, u1b-u1a) + 1e-12
 	rel := func(x, y float64) float64 { return math.Abs(x/y - 1) }
 	if !(rel(n2.Min, n1.Min) <= tolR) || !(rel(n2.Max, n1.Max) <= tolR) {
-		w.Violate("nice-not-idempotent", fmt.Sprintf("%v: Nice gave %s, Nice again [%v,%v]", c, after, n2.Min, n2.Max), c)
+		w.Violate("nice-not-idempotent", fmt.Sprintf("%v: Nice gave %s, Nice again [%v,%v]", c, after, n2.Min, n2.Max), c.rec())
 	}
 	if !feasible {
 		return
@@ -1598,17 +1843,17 @@ func c17LogNice(w *mon.W, c c17Case, R *c17LogRef, lg scale.Log) {
 	var major []float64
 	w.Eval("Log.Ticks(after Nice)")
 	if p, v := mon.Call(func() { major, _ = n1.Ticks(o) }); p {
-		w.Violate("ticks-panic", fmt.Sprintf("%v: Ticks on the niced domain %s panicked: %v", c, after, v), c)
+		w.Violate("ticks-panic", fmt.Sprintf("%v: Ticks on the niced domain %s panicked: %v", c, after, v), c.rec())
 		return
 	}
 	if len(major) < 2 || !(rel(major[0], a) <= tolR) || !(rel(major[len(major)-1], b) <= tolR) {
-		w.Violate("nice-ends-not-ticks", fmt.Sprintf("%v: Nice gave %s but the major ticks there are %s", c, after, c17Fmt(major)), c)
+		w.Violate("nice-ends-not-ticks", fmt.Sprintf("%v: Nice gave %s but the major ticks there are %s", c, after, c17Fmt(major)), c.rec())
 		return
 	}
 	E := math.Abs(R.pos(math.Abs(major[len(major)-1]))-R.pos(math.Abs(major[0]))) / float64(len(major)-1)
 	w.Err("log Nice extension vs one major spacing", math.Max(R.ulof-u1a, u1b-R.uhif), E*(1+1e-9)+R.m2)
 	if R.ulof-u1a > E*(1+1e-9)+R.m2 || u1b-R.uhif > E*(1+1e-9)+R.m2 {
-		w.Violate("nice-adds-more-than-one-spacing", fmt.Sprintf("%v: Nice gave %s, major ticks are %d^%v apart: extended by %.6g and %.6g spacings", c, after, c.Base, E, (R.ulof-u1a)/E, (u1b-R.uhif)/E), c)
+		w.Violate("nice-adds-more-than-one-spacing", fmt.Sprintf("%v: Nice gave %s, major ticks are %d^%v apart: extended by %.6g and %.6g spacings", c, after, c.Base, E, (R.ulof-u1a)/E, (u1b-R.uhif)/E), c.rec())
 	}
 }
 
@@ -1678,7 +1923,39 @@ func c17LinFinish(rng *mon.Rand, c c17Case) c17Case {
 	if rng.Intn(7) == 0 {
 		c.Min, c.Max = c.Max, c.Min
 	}
+	c.Clamp = rng.PickI(0, 0, 1, 2)
+	if rng.Bool() && hi > lo {
+		c.Alt = c17AltOpts(rng, c, func(max int) (int, bool) {
+			lU, _, has, _ := c17NewLinRef(lo, hi, c.Base).search(max, 0, 0)
+			return lU, has
+		}, 1<<30)
+	}
 	return c
+}
+
+// c17AltOpts draws the other TickOptions of a case: another Max (half the
+// time a much smaller or larger one) and, a third of the time, level limits
+// relative to the level that Max selects without limits (lU).
+func c17AltOpts(rng *mon.Rand, c c17Case, lU func(max int) (int, bool), lcap int) *c17Opts {
+	a := &c17Opts{OMax: c17PickMax(rng)}
+	switch rng.Intn(4) {
+	case 0:
+		a.OMax = rng.Range(1, 3)
+	case 1:
+		a.OMax = rng.Range(12, 20)
+	}
+	if a.OMax == c.OMax {
+		a.OMax = a.OMax%20 + 1
+	}
+	if rng.Intn(3) == 0 {
+		if l, has := lU(a.OMax); has {
+			mn, mx := c17Limits(rng, l, rng.Range(1, 5))
+			if mx <= lcap {
+				a.MinLevel, a.MaxLevel = mn, mx
+			}
+		}
+	}
+	return a
 }
 
 // c17InLinDomain: the statement's domain for the Linear laws.
@@ -1702,7 +1979,24 @@ func c17LogFinish(rng *mon.Rand, c c17Case) c17Case {
 	if rng.Intn(3) == 0 {
 		c.Min, c.Max = -c.Max, -c.Min
 	}
+	c.Clamp = rng.PickI(0, 0, 1, 2)
+	if rng.Bool() {
+		c.Alt = c17AltOpts(rng, c, func(max int) (int, bool) {
+			lU, _, has, _ := c17NewLogRef(lo, hi, false, c.Base).search(max, 0, 0)
+			return lU, has
+		}, c17LogCap(c.Base))
+	}
 	return c
+}
+
+// c17FixedAlt: the other options of a fixed case with Max m: Max m+7 (mod 20),
+// for every fifth m with the level window [2,2].
+func c17FixedAlt(m int) *c17Opts {
+	a := &c17Opts{OMax: (m+6)%20 + 1}
+	if m%5 == 0 {
+		a.MinLevel, a.MaxLevel = 2, 2
+	}
+	return a
 }
 
 func c17InLogDomain(lo, hi float64) bool {
@@ -1710,13 +2004,15 @@ func c17InLogDomain(lo, hi float64) bool {
 }
 
 func c17Run(r *mon.Run) {
-	r.Rule("FindLevel: every non-increasing step count function with <=3 steps on levels -6..6 (thorough -8..8) x Max x every (MinLevel,MaxLevel) window incl. (0,0)=unlimited and inverted ones x every guess, judged against a linear scan, CountTicks calls budgeted; sampled step functions with the count values scaled by 1, 1e2, 1e4, MaxInt/8 (per function or per value) x Max in 1..20, next to every value and a hundredth of it, up to MaxInt; all step functions with breakpoints at levels out to +-1000 under no limits and wide windows. Linear/Log: random, snapped-to-tick, near-slack and fixed domains x bases x Max 1..20 x level limits; each case judges Ticks (laws + lattice model; Linear: a multiple of the spacing up to 2e-10 of the width + 8 ulp outside an end is optional, Log: a power of the base up to 2e-10 of the log-width + the rounding allowance of the logarithms outside an end is optional), CountTicks/TicksAtLevel around the chosen level and on far levels (Linear: two finer levels with up to 100000 and ~6000 ticks, long lists judged pairwise + first/last/32 sampled exact values, three far coarser levels; Log: every level up to the last finite effective base), Nice, Nice twice and Ticks after Nice. Reused scale values: a first domain is judged on a value (and optionally Nice'd in place), then Min/Max/Base are assigned a second domain and everything is judged again on the same value. Non-trivial = hits a class; distinct by hash of the case.")
+	r.Rule("FindLevel: every non-increasing step count function with <=3 steps on levels -6..6 (thorough -8..8) x Max x every (MinLevel,MaxLevel) window incl. (0,0)=unlimited and inverted ones x every guess, judged against a linear scan, CountTicks calls budgeted; sampled step functions with the count values scaled by 1, 1e2, 1e4, MaxInt/8 (per function or per value) x Max in 1..20, next to every value and a hundredth of it, up to MaxInt; all step functions with breakpoints at levels out to +-1000 under no limits and wide windows. Linear/Log: random, snapped-to-tick, near-slack and fixed domains x bases x Max 1..20 x level limits; each case judges Ticks (laws + lattice model; Linear: a multiple of the spacing up to 2e-10 of the width + 8 ulp outside an end is optional, Log: a power of the base up to 2e-10 of the log-width + the rounding allowance of the logarithms outside an end is optional), CountTicks/TicksAtLevel around the chosen level and on far levels (Linear: two finer levels with up to 100000 and ~6000 ticks, long lists judged pairwise + first/last/32 sampled exact values, three far coarser levels; Log: every level up to the last finite effective base), Nice, Nice twice and Ticks after Nice. Reused scale values: a first domain is judged on a value (and optionally Nice'd in place), then Min/Max/Base are assigned a second domain and everything is judged again on the same value; one-field variants assign only Base, only Min or only Max and judge with the reference of the fields as the value then has them. About half the cases set Clamp (by field or SetClamp) before the first call. About half the cases carry a second TickOptions value (other Max, a third with a level window): Ticks and CountTicks/TicksAtLevel at the selected level are asked with it of the value that answered the calls above, and of a copy Nice'd in place with the first options, and judged with a fresh reference for the fields the value then has. Non-trivial = hits a class; distinct by hash of the case.")
 	r.Assume("Linear laws on the statement's domain: width 1e-9..1e9, |centre|/width <= 1e3; Log domains within 1e-100..1e100",
 		"a multiple of the spacing within 4 ulp of a domain end counts as inside (the repo's own tests pin the end ticks); within 2e-10 of the width + 8 ulp outside it is optional (the statement names the library's 1e-10 slack as the tolerance), and Nice may move an end inwards by at most that",
 		"Log: a major tick inside the closed domain [Min,Max] as float64s (ends included) must be among the minor ticks to 1e-9 relative; one strictly outside (admitted by the slack) is excused, and so are ticks within the tolerance of an end where rounding of the logarithm exceeds the 1e-10 slack (narrow domain far from 1: there the unchanged library's levels disagree about an end tick, e.g. base 3 [3^e(1-1e-5), 3^e] with MinLevel 1)",
 		"Log levels below 0 have no major ticks (CountTicks = MaxInt there by design): CountTicks==len(TicksAtLevel) is asserted for levels >= 0 only; Log level limits stay where Base^(2^level) is finite",
 		"Log: a power of the (effective) base within 2e-10 of the log-width + 32 ulp of the larger |log_base| position outside an end is optional, and Nice may move an end inwards by at most that (twice the library's 1e-10 slack, as for Linear); level -1 minor ticks are judged on their float64 values with the same relative window",
 		"the domain of a scale is whatever its exported Min/Max/Base fields say at the time of the call: assigning them on a value that has answered calls before must behave like a fresh value",
+		"ticks do not depend on the Clamp field (it only confines Map's output), nor on TickOptions given to earlier calls or to Nice: Ticks(o2) on a value Nice'd with o1 is judged as Ticks(o2) of a fresh value with the niced Min/Max/Base",
+		"Linear level windows whose coarsest level holds more than 1e15 ticks are outside the explored range (generated windows stay within 30 levels of the level that fits; a window drawn for one domain can land there once Nice has widened the value by many orders of magnitude): there the tick count of the finer levels leaves the int range and the unchanged library's Ticks panics in makeslice",
 		"FindLevel with no level limit and every level feasible has no lowest level: any feasible level is accepted",
 		"FindLevel with no level limits is explored with count functions whose steps lie within levels -1000..1000; answers beyond +-1000 levels are outside the explored range")
 	r.Gate("lin-max<=2-straddling-0", "log-max<=2-straddling-1", "level-limits-binding", "fl-unsatisfiable", "log-negative-domain",
@@ -1729,7 +2025,12 @@ func c17Run(r *mon.Run) {
 		"fl-count-drops-from>100x-max-at-answer", "fl-count-drops-from>100x-max-at-maxlevel", "fl-max>20", "fl-count>=maxint/8",
 		"fl-unlimited-answer-above-100", "fl-unlimited-answer-below--100",
 		"lin-reused-scale-after-calls", "lin-reused-scale-after-nice", "log-reused-scale-after-calls", "log-reused-scale-after-nice",
-		"log-power-just-beyond-slack-outside", "log-power-just-beyond-slack-inside")
+		"log-power-just-beyond-slack-outside", "log-power-just-beyond-slack-inside",
+		"lin-clamp-set", "log-clamp-set", "log-clamp-set-minor-level--1",
+		"lin-other-options-after-calls", "log-other-options-after-calls",
+		"lin-other-options-after-nice-select-another-level", "log-other-options-after-nice-select-another-level",
+		"lin-reused-scale-only-base-assigned", "lin-reused-scale-only-min-assigned", "lin-reused-scale-only-max-assigned",
+		"log-reused-scale-only-base-assigned", "log-reused-scale-only-min-assigned", "log-reused-scale-only-max-assigned")
 	if err := ref.C17SelfTest(); err != nil {
 		r.Inconclusive("reference self-test failed: " + err.Error())
 		return
@@ -1937,14 +2238,14 @@ func c17Run(r *mon.Run) {
 		{-8.381903171539306e-18, 2.793967723846156e-09}, {-1e-16, 1e-8}, {-1e-8, 1e-16}} {
 		for _, b := range c17LinBases {
 			for m := 1; m <= 20; m++ {
-				fixed = append(fixed, c17Case{Kind: "lin", Min: mon.F(d[0]), Max: mon.F(d[1]), Base: b, OMax: m})
+				fixed = append(fixed, c17Case{Kind: "lin", Min: mon.F(d[0]), Max: mon.F(d[1]), Base: b, OMax: m, Clamp: len(fixed) % 3, Alt: c17FixedAlt(m)})
 			}
 		}
 	}
 	for _, d := range [][2]float64{{1, 10}, {1, 100}, {1, 1e8}, {0.91, 200}, {-100, -1}, {0.5, 20}, {2, 5}, {1e-100, 1e100}, {-1e100, -1e-100}, {1, 1.0001}, {0.3, 3}, {1e99, 1e100}, {1e-100, 2e-100}} {
 		for _, b := range c17LogBases {
 			for m := 1; m <= 20; m++ {
-				fixed = append(fixed, c17Case{Kind: "log", Min: mon.F(d[0]), Max: mon.F(d[1]), Base: b, OMax: m})
+				fixed = append(fixed, c17Case{Kind: "log", Min: mon.F(d[0]), Max: mon.F(d[1]), Base: b, OMax: m, Clamp: len(fixed) % 3, Alt: c17FixedAlt(m)})
 			}
 		}
 	}
@@ -2002,6 +2303,9 @@ func c17Run(r *mon.Run) {
 		}
 		if rng.Intn(4) == 0 && c.MinLevel == 0 && c.MaxLevel == 0 {
 			c.Base = a.Base // only the domain moves (zooming an axis); level limits are drawn relative to the base
+			if c.Alt != nil {
+				c.Alt.MinLevel, c.Alt.MaxLevel = 0, 0
+			}
 		}
 		c.Prev = c17PrevOf(a, []string{"calls", "nice"}[i%2])
 		c17JudgeLin(w, c)
@@ -2022,8 +2326,128 @@ func c17Run(r *mon.Run) {
 		}
 		if rng.Intn(4) == 0 && c.MinLevel == 0 && c.MaxLevel == 0 {
 			c.Base = a.Base
+			if c.Alt != nil {
+				c.Alt.MinLevel, c.Alt.MaxLevel = 0, 0
+			}
 		}
 		c.Prev = c17PrevOf(a, []string{"calls", "nice"}[i%2])
+		c17JudgeLog(w, c)
+	})
+
+	// ---- reused scale values, ONE field assigned: only Base, only Min or
+	// only Max of a value that has answered calls (and has been Nice'd in
+	// place) changes, the other fields stay as the value has them
+	npl := r.Pick(1500, 24000)
+	r.Parallel("linear-reused-one-field", npl, func(w *mon.W, i int) {
+		rng := w.Rng
+		var a c17Case
+		var ok bool
+		if rng.Bool() {
+			a, ok = c17GenLinRandom(w, rng)
+		} else {
+			a, ok = c17GenLinSnapped(w, rng, rng.Intn(3))
+		}
+		if !ok {
+			return
+		}
+		c := a
+		c.OMax, c.MinLevel, c.MaxLevel, c.Alt = c17PickMax(rng), 0, 0, nil
+		c.Prev = c17PrevOf(a, []string{"calls", "nice"}[i%2])
+		c.Prev.Assign = []string{"base", "min", "max"}[(i/2)%3]
+		mn, mx := float64(a.Min), float64(a.Max)
+		wd := math.Abs(mx - mn)
+		// the end moves outwards by up to three widths (or by 10..1000) or
+		// inwards by up to 0.9
+		d := wd * rng.Uniform(-0.9, 3)
+		if rng.Intn(4) == 0 {
+			d = wd * rng.Uniform(0, 1) * math.Pow(10, float64(rng.Range(1, 3)))
+		}
+		if mn > mx {
+			d = -d
+		}
+		switch c.Prev.Assign {
+		case "base":
+			for c.Base == a.Base {
+				c.Base = c17LinBases[rng.Intn(len(c17LinBases))]
+			}
+		case "min":
+			c.Min = mon.F(mn - d)
+		case "max":
+			c.Max = mon.F(mx + d)
+		}
+		lo, hi := math.Min(float64(c.Min), float64(c.Max)), math.Max(float64(c.Min), float64(c.Max))
+		if !c17InLinDomain(lo, hi) {
+			w.Note("lin-generated-outside-domain")
+			return
+		}
+		if k := c17LimitKind(rng); k != 0 {
+			if lU, _, has, _ := c17NewLinRef(lo, hi, c.Base).search(c.OMax, 0, 0); has {
+				c.MinLevel, c.MaxLevel = c17Limits(rng, lU, k)
+			}
+		}
+		c17JudgeLin(w, c)
+	})
+	npg := r.Pick(1500, 24000)
+	r.Parallel("log-reused-one-field", npg, func(w *mon.W, i int) {
+		rng := w.Rng
+		var a c17Case
+		var ok bool
+		if rng.Bool() {
+			a, ok = c17GenLogRandom(w, rng)
+		} else {
+			a, ok = c17GenLogSnapped(w, rng, rng.Intn(3))
+		}
+		if !ok {
+			return
+		}
+		c := a
+		c.OMax, c.MinLevel, c.MaxLevel, c.Alt = c17PickMax(rng), 0, 0, nil
+		c.Prev = c17PrevOf(a, []string{"calls", "nice"}[i%2])
+		c.Prev.Assign = []string{"base", "min", "max"}[(i/2)%3]
+		mn, mx := float64(a.Min), float64(a.Max) // mn < mx, one sign
+		neg := mn < 0
+		ratio := mx / mn // of the magnitudes, > 1
+		if neg {
+			ratio = mn / mx
+		}
+		// the end moves outwards by up to the log-width or inwards by up to
+		// 0.9 of it (in magnitude: Min of a positive domain and Max of a
+		// negative one move down when they move outwards)
+		u := rng.Uniform(-0.9, 1)
+		switch c.Prev.Assign {
+		case "base":
+			for c.Base == a.Base {
+				c.Base = c17LogBases[rng.Intn(len(c17LogBases))]
+			}
+		case "min":
+			if neg {
+				c.Min = mon.F(mn * math.Pow(ratio, u))
+			} else {
+				c.Min = mon.F(mn * math.Pow(ratio, -u))
+			}
+		case "max":
+			if neg {
+				c.Max = mon.F(mx * math.Pow(ratio, -u))
+			} else {
+				c.Max = mon.F(mx * math.Pow(ratio, u))
+			}
+		}
+		lo, hi := float64(c.Min), float64(c.Max)
+		if neg {
+			lo, hi = -hi, -lo
+		}
+		if !c17InLogDomain(lo, hi) {
+			w.Note("log-generated-outside-domain")
+			return
+		}
+		if k := c17LimitKind(rng); k != 0 && k != 6 {
+			R := c17NewLogRef(lo, hi, false, c.Base)
+			if lU, _, has, _ := R.search(c.OMax, 0, 0); has {
+				if l1, l2 := c17Limits(rng, lU, k); l2 <= R.lcap {
+					c.MinLevel, c.MaxLevel = l1, l2
+				}
+			}
+		}
 		c17JudgeLog(w, c)
 	})
 }
